@@ -19,8 +19,16 @@ void CDNS::GzipCborOutputWriter::write(const char* p, std::size_t size)
     m_gzip.avail_in = size;
 
     // Loop until all input data is compressed and written to output
-    while (m_gzip.avail_in > 0) {
-        write_gzip(size, Z_NO_FLUSH);
+    try {
+        while (m_gzip.avail_in > 0) {
+            write_gzip(size, Z_NO_FLUSH);
+        }
+    }
+    catch (...) {
+        // Don't keep a pointer to caller's buffer, finishing the stream would read it again
+        m_gzip.next_in = Z_NULL;
+        m_gzip.avail_in = 0;
+        throw;
     }
 }
 
@@ -94,8 +102,16 @@ void CDNS::XzCborOutputWriter::write(const char* p, std::size_t size)
     m_lzma.avail_in = size;
 
     // Loop until all input data is compressed and written to output
-    while (m_lzma.avail_in > 0) {
-        write_lzma(size, LZMA_RUN);
+    try {
+        while (m_lzma.avail_in > 0) {
+            write_lzma(size, LZMA_RUN);
+        }
+    }
+    catch (...) {
+        // Don't keep a pointer to caller's buffer, finishing the stream would read it again
+        m_lzma.next_in = NULL;
+        m_lzma.avail_in = 0;
+        throw;
     }
 }
 
